@@ -45,6 +45,8 @@ pub mod quil;
 pub mod reserved;
 pub mod units;
 pub mod validation;
+#[cfg(rigetti_quil_rs_verif)]
+pub mod verif_hooks;
 pub mod waveform;
 
 pub use program::Program;
